@@ -64,10 +64,14 @@ def tasks_for(tier):
     add([("tuple", ["i16", "u64#20", "u8"])], dbg=True, end="drop", group="compound")
     add([("vec", "u8", 2), ("flush",), ("str", 2)], k=3, dbg=True, end="drop", group="compound")
     add([("str", 3), ("string", 2), ("char",)], dbg=True, group="compound")
+    # pieces at least as long as the buffer (the &str/String chunking path), with earlier bytes still pending
+    add([("str", 3), ("fill", 65536), ("char",)], k=65536, end="flush", group="chunks")
+    add([("char",), ("fill", 65536 + 7), ("str", 2)], k=10, end="drop", group="chunks")
     if tier == "thorough":
         add([("fill", 65536 + 7), ("str", 2)], k=None, end="drop", group="chunks")
         add([("str", 3), ("fill", 65536), ("char",)], k=10, end="flush", group="chunks")
         add([("fill", 2 * 65536 + 1)], k=65536, end="drop", group="chunks")
+        add([("str", 3), ("fill", 65536), ("char",)], k=65536, end="flush", dbg=True, group="chunks")
         for k in (0, 1, 2, 20, 40, 45):
             add([("str", k), ("str", k), ("str", k)], k=k, end="drop", group="boundary")
     return T
